@@ -134,9 +134,10 @@ VARIABLES
   wr,          \* [Brokers -> SUBSET (HB + request numbers)] who is inside WriteControlAd on the broker stream
   ticks,       \* [Brokers -> Nat] heartbeats written
   nmsg,        \* [Brokers -> Nat] other messages the broker has sent
+  hbc,         \* [Brokers -> Nat] connection the heartbeat being written goes to (0 = none)
   cancelled    \* the caller's context ended
 
-vars == <<lst, mem, registered, refused, conns, ngrant, inq, req, wr, ticks, nmsg, cancelled>>
+vars == <<lst, mem, registered, refused, conns, ngrant, inq, req, wr, ticks, nmsg, hbc, cancelled>>
 
 Cur(b)     == Len(conns[b])
 CurConn(b) == conns[b][Cur(b)]
@@ -154,6 +155,7 @@ Init ==
   /\ wr = [b \in Brokers |-> {}]
   /\ ticks = [b \in Brokers |-> 0]
   /\ nmsg = [b \in Brokers |-> 0]
+  /\ hbc = [b \in Brokers |-> 0]
   /\ cancelled = FALSE
 
 -----------------------------------------------------------------------------
@@ -171,7 +173,7 @@ LRegister(b) ==
                                                  br |-> "open", ans |-> "none"])]
   /\ lst' = [lst EXCEPT ![b] = "wait"]
   /\ inq' = [inq EXCEPT ![b] = <<>>]
-  /\ UNCHANGED <<mem, registered, refused, ngrant, req, wr, ticks, nmsg, cancelled>>
+  /\ UNCHANGED <<mem, registered, refused, ngrant, req, wr, ticks, nmsg, hbc, cancelled>>
 
 \* the broker answers the registration
 BAnswer(b, a) ==
@@ -181,7 +183,7 @@ BAnswer(b, a) ==
   /\ conns' = [conns EXCEPT ![b][Cur(b)].ans = a,
                             ![b][Cur(b)].br = IF a = "hangup" THEN "closed" ELSE @]
   /\ ngrant' = [ngrant EXCEPT ![b] = IF a \in {"fresh", "nocookie"} THEN @ + 1 ELSE @]
-  /\ UNCHANGED <<lst, mem, registered, refused, inq, req, wr, ticks, nmsg, cancelled>>
+  /\ UNCHANGED <<lst, mem, registered, refused, inq, req, wr, ticks, nmsg, hbc, cancelled>>
 
 Granted(b, a) ==
   CASE a = "fresh"    -> [id |-> ngrant[b], ck |-> ngrant[b]]
@@ -201,7 +203,7 @@ LRegReply(b) ==
             /\ refused' = [refused EXCEPT ![b] = (a = "refuse")]
             /\ lst' = [lst EXCEPT ![b] = IF a = "refuse" /\ "GiveUpAfterRefuse" \in Bug THEN "dead" ELSE "idle"]
             /\ UNCHANGED <<mem, registered>>
-  /\ UNCHANGED <<ngrant, inq, req, wr, ticks, nmsg, cancelled>>
+  /\ UNCHANGED <<ngrant, inq, req, wr, ticks, nmsg, hbc, cancelled>>
 
 -----------------------------------------------------------------------------
 (* the broker, once it has granted the registration                        *)
@@ -214,19 +216,19 @@ BForward(b, t) ==
   /\ BrokerUp(b) /\ Len(req[b]) < MaxReq /\ t \in Targets
   /\ req' = [req EXCEPT ![b] = Append(@, NewReq(b, t))]
   /\ inq' = [inq EXCEPT ![b] = Append(@, [k |-> "req", r |-> Len(req[b]) + 1])]
-  /\ UNCHANGED <<lst, mem, registered, refused, conns, ngrant, wr, ticks, nmsg, cancelled>>
+  /\ UNCHANGED <<lst, mem, registered, refused, conns, ngrant, wr, ticks, nmsg, hbc, cancelled>>
 
 BSend(b, m) ==
   /\ BrokerUp(b) /\ m \in Msgs /\ nmsg[b] < MaxMsg
   /\ inq' = [inq EXCEPT ![b] = Append(@, [k |-> m, r |-> 0])]
   /\ nmsg' = [nmsg EXCEPT ![b] = @ + 1]
-  /\ UNCHANGED <<lst, mem, registered, refused, conns, ngrant, req, wr, ticks, cancelled>>
+  /\ UNCHANGED <<lst, mem, registered, refused, conns, ngrant, req, wr, ticks, hbc, cancelled>>
 
 BDrop(b) ==
   /\ BrokerUp(b)
   /\ conns' = [conns EXCEPT ![b][Cur(b)].br = "closed"]
   /\ inq' = [inq EXCEPT ![b] = Append(@, [k |-> "eof", r |-> 0])]
-  /\ UNCHANGED <<lst, mem, registered, refused, ngrant, req, wr, ticks, nmsg, cancelled>>
+  /\ UNCHANGED <<lst, mem, registered, refused, ngrant, req, wr, ticks, nmsg, hbc, cancelled>>
 
 -----------------------------------------------------------------------------
 (* serve: one control message, or the end of the connection                *)
@@ -263,7 +265,7 @@ LRead(b) ==
          [] m.k = "eof" ->
               /\ UNCHANGED req
               /\ DropConn(b, "idle")
-  /\ UNCHANGED <<mem, refused, ngrant, wr, ticks, nmsg, cancelled>>
+  /\ UNCHANGED <<mem, refused, ngrant, wr, ticks, nmsg, hbc, cancelled>>
 
 -----------------------------------------------------------------------------
 (* handleRequest                                                           *)
@@ -284,7 +286,7 @@ LDial(b, r) ==
                               ![b][r].res = IF "OkWithoutHello" \in Bug THEN "ok" ELSE "fail"]
      \/ /\ Orphaned(b, r)                            \* abandoned (the statement is silent)
         /\ req' = [req EXCEPT ![b][r].st = "aborted"]
-  /\ UNCHANGED <<lst, mem, registered, refused, conns, ngrant, inq, wr, ticks, nmsg, cancelled>>
+  /\ UNCHANGED <<lst, mem, registered, refused, conns, ngrant, inq, wr, ticks, nmsg, hbc, cancelled>>
 
 \* writeToBroker: the current stream, then writeMu
 LWriteBegin(b, r) ==
@@ -296,7 +298,7 @@ LWriteBegin(b, r) ==
      \/ /\ lst[b] # "up" \/ cancelled               \* "not connected" / context ended: the reply is lost
         /\ req' = [req EXCEPT ![b][r].st = "done"]
         /\ UNCHANGED wr
-  /\ UNCHANGED <<lst, mem, registered, refused, conns, ngrant, inq, ticks, nmsg, cancelled>>
+  /\ UNCHANGED <<lst, mem, registered, refused, conns, ngrant, inq, ticks, nmsg, hbc, cancelled>>
 
 LWriteEnd(b, r) ==
   /\ r \in DOMAIN req[b] /\ req[b][r].st = "writing"
@@ -307,21 +309,25 @@ LWriteEnd(b, r) ==
                                 ![b][r].nrep = @ + (IF "DoubleReply" \in Bug THEN 2 ELSE 1)]
        \/ /\ ~Live(b, w) \/ Orphaned(b, r)          \* written into a dead connection, or abandoned
           /\ req' = [req EXCEPT ![b][r].st = "done"]
-  /\ UNCHANGED <<lst, mem, registered, refused, conns, ngrant, inq, ticks, nmsg, cancelled>>
+  /\ UNCHANGED <<lst, mem, registered, refused, conns, ngrant, inq, ticks, nmsg, hbc, cancelled>>
 
 -----------------------------------------------------------------------------
 (* heartbeatLoop (time is not modelled: a heartbeat may come whenever the  *)
-(* registration is up)                                                     *)
+(* registration is up); it is written to the connection that was current   *)
+(* when the write began and reaches the broker if that one is still alive  *)
+TickDelivered(b) == HB \in wr[b] /\ hbc[b] > 0 /\ Live(b, hbc[b])
 LTickBegin(b) ==
   /\ lst[b] = "up" /\ ticks[b] < MaxTick /\ HB \notin wr[b]
   /\ wr[b] = {} \/ "NoWriteLock" \in Bug
   /\ wr' = [wr EXCEPT ![b] = @ \cup {HB}]
+  /\ hbc' = [hbc EXCEPT ![b] = Cur(b)]
   /\ UNCHANGED <<lst, mem, registered, refused, conns, ngrant, inq, req, ticks, nmsg, cancelled>>
 
 LTickEnd(b) ==
   /\ HB \in wr[b]
   /\ wr' = [wr EXCEPT ![b] = @ \ {HB}]
   /\ ticks' = [ticks EXCEPT ![b] = @ + 1]
+  /\ hbc' = [hbc EXCEPT ![b] = 0]
   /\ UNCHANGED <<lst, mem, registered, refused, conns, ngrant, inq, req, nmsg, cancelled>>
 
 -----------------------------------------------------------------------------
@@ -329,7 +335,7 @@ LTickEnd(b) ==
 EnvCancel ==
   /\ ~cancelled
   /\ cancelled' = TRUE
-  /\ UNCHANGED <<lst, mem, registered, refused, conns, ngrant, inq, req, wr, ticks, nmsg>>
+  /\ UNCHANGED <<lst, mem, registered, refused, conns, ngrant, inq, req, wr, ticks, nmsg, hbc>>
 
 LStop(b) ==
   /\ cancelled /\ lst[b] # "stopped"
@@ -338,7 +344,7 @@ LStop(b) ==
   /\ registered' = [registered EXCEPT ![b] = FALSE]
   /\ lst' = [lst EXCEPT ![b] = "stopped"]
   /\ inq' = [inq EXCEPT ![b] = <<>>]
-  /\ UNCHANGED <<mem, refused, ngrant, req, wr, ticks, nmsg, cancelled>>
+  /\ UNCHANGED <<mem, refused, ngrant, req, wr, ticks, nmsg, hbc, cancelled>>
 
 -----------------------------------------------------------------------------
 Listener(b) ==
@@ -416,7 +422,7 @@ StoppedClean ==
 OneConnPerBroker ==
   \A b \in Brokers : \A i \in DOMAIN conns[b] : (conns[b][i].l = "open") => i = Cur(b)
 
-BVars(b) == <<lst[b], mem[b], registered[b], refused[b], conns[b], ngrant[b], inq[b], req[b], wr[b], ticks[b], nmsg[b]>>
+BVars(b) == <<lst[b], mem[b], registered[b], refused[b], conns[b], ngrant[b], inq[b], req[b], wr[b], ticks[b], nmsg[b], hbc[b]>>
 Independent == [][\E b \in Brokers : \A o \in Brokers \ {b} : BVars(o)' = BVars(o)]_vars
 
 \* a registration is retried until it succeeds or the context ends (MaxConn bounds the model)
